@@ -128,6 +128,12 @@ class Machine:
             body = self.b.facts.bodies.get(fv[1][3:])
             if body is not None and body.argc == len(params):
                 return self.invoke(body, list(params))
+            # a tuple-variant constructor used as a function value (`.map(TokenType::Duration)`)
+            path = re.sub(r'::<.*>$', '', fv[1][3:])
+            owner, _, vname = path.rpartition('::')
+            rec = self.b.facts.adts.get(owner)
+            if rec and any(v['name'] == vname for v in rec['variants']):
+                return self.make_adt(path, list(params), [])
         return None
 
     # ------------------------------------------------------------------ values
@@ -420,6 +426,8 @@ class Machine:
             if isinstance(a, (int, float)) and isinstance(b, (int, float)):
                 self.check_const_compare(a, b)
                 return int(CMP[m.group(1)](a, b))
+            if isinstance(a, str) and isinstance(b, str) and m.group(1) in ('eq', 'ne'):
+                return int((a == b) == (m.group(1) == 'eq'))          # two literal texts
             raise Unknown('%s of %r, %r' % (m.group(1), a, b))
         m = re.search(r'ops::(?:arith::)?(Add|Sub|Mul|Div|Rem)(?:<[^>]*>)?>::(add|sub|mul|div|rem)$', path)
         if m and len(args) == 2:
@@ -450,6 +458,27 @@ class Machine:
                     raise Unknown('mem::take of %r' % (old,))
             self.write(args[0][1], args[0][2], new)
             return old
+        # `x?`: Try::branch / FromResidual::from_residual on a known Option / Result
+        if re.search(r'ops::(try_trait::)?Try>::branch$', path) and args:
+            v = self.deref_value(args[0])
+            if isinstance(v, dict) and '__discr__' in v and str(v.get('__adt__', '')).endswith(('Option', 'Result')):
+                good = 1 if v['__adt__'].endswith('Option') else 0
+                if v['__discr__'] == good:
+                    return self.make_adt('core::ops::ControlFlow::Continue', [v['0']], [])
+                return self.make_adt('core::ops::ControlFlow::Break', [v], [])
+        if re.search(r'FromResidual<.*>>::from_residual$', path) and args:
+            v = self.deref_value(args[0])
+            if isinstance(v, dict) and '__discr__' in v and str(v.get('__adt__', '')).endswith(('Option', 'Result')):
+                return v
+        if re.search(r'Option::<.*>::(ok_or|ok_or_else)$', path) and len(args) == 2:
+            v = self.deref_value(args[0])
+            if isinstance(v, dict) and '__discr__' in v:
+                if v['__discr__'] == 1:
+                    return self.make_adt('core::result::Result::Ok', [v['0']], [])
+                e = args[1] if path.endswith('ok_or') else self.apply_fn(args[1], [])
+                if e is None:
+                    raise Unknown('ok_or_else with an unknown function value')
+                return self.make_adt('core::result::Result::Err', [e], [])
         if re.search(r'Option::<.*>::take$', path) and args and is_ptr(args[0]):
             old = self.read(args[0][1], args[0][2])
             self.write(args[0][1], args[0][2], self.make_adt('core::option::Option::None', [], []))
